@@ -34,22 +34,24 @@ def contractMutators : List String := [
   "psbt.count_slot(signed)",
   "psbtview._count_slot(signed)"]
 
-/-- recorded, unrepaired defect (known_findings.json D31): `Descriptor(...)` and `TapTree(...)` assign
-    `k.taproot` on the caller's key objects -/
-def knownUnsafe : List String := [
-  "descriptor.descriptor.Descriptor.__init__[k]",
-  "descriptor.taptree.TapTree.__init__[k]",
-  "probe:Descriptor(key=k) twice with different taproot flags",
-  "probe:Descriptor(key=k, taproot=True) leaves k unchanged",
-  "probe:TapTree(leaf) leaves the keys of the leaf unchanged"]
+/-- recorded, unrepaired defects that `facts_safe_partial` would have to exclude by name: NONE at present. Until round 6
+    this list held the five D31 names (`Descriptor.__init__[k]`, `TapTree.__init__[k]` and three probes: the two
+    constructors assigned `k.taproot` on the caller's key objects); the library was repaired (fixes/d31.diff: the flag is
+    set on copies), the regenerated table has no such site and the three probes are confirmed safe. The list is kept as
+    the (empty) hook the statements below and in Props/C19Complete.lean mention; `knownUnsafe_is_empty` pins it. -/
+def knownUnsafe : List String := []
 
 def inScope (s : Site) : Bool := !(contractMutators.contains s.name) && !(knownUnsafe.contains s.name)
+
+/-- no site is excused as a known defect: `inScope` leaves out the contract mutators only -/
+theorem knownUnsafe_is_empty : knownUnsafe = [] ∧ ∀ s : Site, inScope s = !(contractMutators.contains s.name) := by
+  exact ⟨rfl, fun s => by simp [inScope, knownUnsafe]⟩
 
 set_option maxRecDepth 100000 in
 /-- every place of the loaded embit modules where hidden shared state or argument mutation could arise (mutable
     defaults, memos, writes through parameters, constructor writes into argument objects, buffers handed to native
-    code, the always-on probes; nothing unclassified) is safe — except the listed contract mutators and the recorded
-    defect `knownUnsafe` (hence `_partial`; the model-level witness for that class is
+    code, the always-on probes; nothing unclassified) is safe — except the listed contract mutators (hence `_partial`; `knownUnsafe` is
+    empty since D31 was repaired, `knownUnsafe_is_empty`; the model-level witness for that class is
     `mutating_method_changes_argument`) -/
 theorem facts_safe_partial : ((Gen.Alias.sites.filter inScope).all Site.safe) = true := by
   decide +kernel
@@ -102,7 +104,7 @@ theorem embit_descriptors_safe (f : Nat → List (List Val) → List Val → Val
     decide +kernel
 
 /-- Part 1 instantiated with the extracted descriptors: in every history over the extracted constructors and methods
-    (contract mutators and the recorded defect excluded) answers are functions of receiver and arguments -/
+    (contract mutators excluded; no recorded defect is, `knownUnsafe_is_empty`) answers are functions of receiver and arguments -/
 theorem embit_results_depend_only_on_arguments (f : Nat → List (List Val) → List Val → Val)
     (d : Nat) (dflt : Nat → List Val) (h : List Op) (hraw : (h.all fun o => !o.isRaw) = true) (i m k : Nat) :
     answer (embitEnv f) (run (embitEnv f) (init d dflt) h) i m k
